@@ -18,6 +18,7 @@ Do(name, arg, r) ==
 Next == /\ Len(hist) < MaxOps
         /\ \/ \E c \in Cols : Do("ins", c, Insert(colors, c))
            \/ \E c \in Cols, i \in 0..MaxLen : Do("set", <<i, c>>, SetColor(colors, i, c))
+           \/ \E c \in Cols, i \in 0..MaxLen, n \in {1, 2} : Do("setn", <<i, c, n>>, SetColor(colors, i, <<c[1], c[2], c[3], n>>))    \* Palette::set_color with a named Color
            \/ \E n \in {0, 1, 3} : Do("resize", n, Resize(colors, n))
            \/ Do("clear", 0, Clear(colors))
 Spec == Init /\ [][Next]_vars
